@@ -3,8 +3,8 @@ import Ruint.Lemmas.Codec.RlpParity
 import Ruint.Lemmas.Codec.Scale
 import Ruint.Lemmas.Codec.Fixed
 import Ruint.Lemmas.Codec.Der
-import Ruint.Model.Codec.Serde
-import Ruint.Model.Codec.Postgres
+import Ruint.Lemmas.Codec.Serde
+import Ruint.Lemmas.Codec.Postgres
 /-!
 # C17 — decoders are total on untrusted input: no out-of-range value, canonical decoders reject non-minimal input
 
@@ -95,7 +95,9 @@ theorem der_error_witnesses :
 /-! ## SCALE -/
 
 theorem scale_compact_sound (bits : ℕ) (bs : List ℕ) (v n : ℕ) (h : Scale.decCompact bits bs = .ok (v, n)) :
-    v < 2 ^ bits ∧ Scale.CompactDenotes bs v n := Scale.decCompact_sound bits bs v n h
+    v < 2 ^ bits ∧ Scale.CompactDenotes bs v n ∧ Scale.denoteCompact bs = some (v, n) :=
+  ⟨(Scale.decCompact_sound bits bs v n h).1, (Scale.decCompact_sound bits bs v n h).2,
+    (Scale.decCompact_denote bits bs v n h).2⟩
 
 theorem scale_fixed_sound (bits : ℕ) (bs : List ℕ) (v n : ℕ) (h : Scale.decFixed bits bs = .ok (v, n)) :
     v < 2 ^ bits ∧ n ≤ bs.length ∧
@@ -122,6 +124,29 @@ theorem borsh_reader_sound (bits : ℕ) (bs : List ℕ) (hbs : IsBytes bs) (v n 
 theorem bincode_sound (bits : ℕ) (bs : List ℕ) (hbs : IsBytes bs) (v : ℕ) (h : Fixed.decBincode bits bs = .ok v) :
     v < 2 ^ bits ∧ 8 + nbytes bits ≤ bs.length ∧ leVal (bs.take 8) = nbytes bits
       ∧ (bs.drop 8).take (nbytes bits) = Fixed.encSerdeBinary bits v := Fixed.decBincode_sound bits bs hbs v h
+
+/-! ## text: `FromStr`, serde_json, postgres -/
+
+/-- `FromStr` (prefix sniffing, `_` ignored, digit loop with overflow check) only returns values in range. -/
+theorem from_str_range (bits : ℕ) (s : List ℕ) (v : ℕ) (h : Serde.fromStr bits s = some v) : v < 2 ^ bits :=
+  Serde.fromStr_range bits s v h
+
+/-- `serde_json::from_slice` (string with escapes or number token): accepted ⇒ in range. -/
+theorem json_range (bits : ℕ) (inp : List ℕ) (v : ℕ) (h : Serde.decJson bits inp = some v) : v < 2 ^ bits :=
+  Serde.decJson_range bits inp v h
+
+/-- postgres `from_sql`, EVERY column type (ints, MONEY, BYTEA, BIT/VARBIT, text, JSON(B), NUMERIC): accepted ⇒ in
+    range. -/
+theorem pg_range (ty : Pg.Ty) (bits : ℕ) (raw : List ℕ) (v : ℕ) (h : Pg.fromSql ty bits raw = .ok v) : v < 2 ^ bits :=
+  Pg.fromSql_range ty bits raw v h
+
+/-- the four inputs on which the pinned tree panicked are plain errors (or values) of the repaired decoder. -/
+theorem pg_former_panics :
+    Pg.fromSql .jsonb 64 [] = .error .pgParseError
+    ∧ Pg.fromSql .json 64 [34] = .error .pgOther
+    ∧ Pg.fromSql .bit 64 [0, 0, 0, 4] = .error .pgParseError
+    ∧ Pg.fromSql .numeric 64 [0, 1, 0x7f, 0xff, 0, 0, 0, 0, 0, 1] = .error .pgOther
+    ∧ Pg.fromSql .numeric 64 [0, 0, 0x7f, 0xff, 0, 0, 0, 0] = .ok 0 := by decide +kernel
 
 /-! ## num-bigint -/
 theorem bigint_sound (bits : ℕ) (neg : Bool) (mag v : ℕ) (h : Fixed.fromBigInt bits neg mag = .ok v) :
